@@ -9,9 +9,12 @@ for l in open(conf):
         d = json.loads(l); confirmed[d['id']] = d
 detected = {}
 for l in open(cat):
-    parts = l.rstrip('\n').split(' ', 2)
+    parts = l.rstrip('\n').split(' ')
     if len(parts) >= 2 and parts[0].startswith('C'):
-        detected[parts[0]] = (parts[1], parts[2] if len(parts) > 2 else '')
+        if parts[1].startswith('exit='):
+            detected[parts[0]] = (parts[0].split('-')[0], parts[1], ' '.join(parts[2:]))
+        else:
+            detected[parts[0]] = (parts[1], parts[2] if len(parts) > 2 else '?', ' '.join(parts[3:]))
 for d in sorted(glob.glob(os.path.join(src, 'C*-*'))):
     i = os.path.basename(d)
     c = confirmed.get(i)
@@ -23,15 +26,15 @@ for d in sorted(glob.glob(os.path.join(src, 'C*-*'))):
     for f in os.listdir(d):
         if f != 'meta.json':
             shutil.copy(os.path.join(d, f), os.path.join(dst, f))
-    rc, sigs = detected.get(i, ('?', ''))
     prop = meta['property']
+    chk, rc, sigs = detected.get(i, (prop, '?', ''))
     meta['breaks_property'] = prop
     meta['needs_to_manifest'] = meta.get('needs', '')
     meta['confirmed_here'] = {
         'how': 'tools/confirm_seeded.sh in a scratch worktree of /repo HEAD: git apply patch.diff; go build ./...; go test -vet=off -count=1 ./... (whole existing suite); demo_cmd with the patch; git apply -R; demo_cmd without the patch',
         'patch_applies': c['patch_applies'], 'build_with_patch': c['build_with_patch'], 'existing_suite_with_patch': c['suite_with_patch'],
         'demo_with_patch': c['demo_with_patch'], 'demo_without_patch': c['demo_without_patch']}
-    meta['detected_by'] = {'ran': f'tools/mutant.sh seeded/{i}/patch.diff {prop} quick  (= bin/check {prop} quick against a scratch worktree with the patch applied)',
+    meta['detected_by'] = {'ran': f'tools/mutant.sh seeded/{i}/patch.diff {chk} quick  (= bin/check {chk} quick against a scratch worktree with the patch applied)',
                            'result': rc, 'first_signatures': [s for s in sigs.split(';') if s]}
     json.dump(meta, open(os.path.join(dst, 'meta.json'), 'w'), indent=1)
     print('installed', i, rc)
